@@ -284,7 +284,12 @@ func fuzzCore(c fuzzCase) (error, bool, []string) {
 		return pbt.Failf("C20/fuzz-panic", "%s: gogoproto decoder panics on %s: %v", c.Type, short(data), e), false, nil
 	}
 	d := dynamicpb.NewMessage(md)
-	dErr := proto.Unmarshal(data, d)
+	var dErr error
+	// protobuf-go 1.34's reflection-based map decoder panics ("cannot convert nil to map key") on an entry whose
+	// key occurs a second time with a wrong wire type: such input is outside the compared domain anyway
+	if e := safely(func() error { dErr = proto.Unmarshal(data, d); return nil }); e != nil {
+		dErr = e
+	}
 	var shape wireShapeInfo
 	walkWire(md, data, &shape, 0)
 
